@@ -46,7 +46,8 @@ def run_translators():
     tdir = os.path.join(VERIF, "translate")
     logs = []
     ok = True
-    for f in sorted(os.listdir(tdir)):
+    os.makedirs(os.path.join(COQ, "gen"), exist_ok=True)
+    for f in (sorted(os.listdir(tdir)) if os.path.isdir(tdir) else []):
         if f.endswith(".py") and not f.startswith("_"):
             rc, out = sh([sys.executable, os.path.join(tdir, f), REPO, os.path.join(COQ, "gen")], timeout=300)
             logs.append(f"== {f}: rc={rc}\n{out}")
